@@ -103,7 +103,6 @@ impl Runner for BashRunner {
         let expression = BASH_TEMPLATE
             .replace("{state_directory}", &state_directory_str)
             .replace("{name}", name)
-            .replace("{shell_expression}", &testcase.shell_expression)
             .replace("{excluded_variables}", &BASH_EXCLUDED_VARIABLES.join("|"))
             .replace(
                 "{persist_state}",
@@ -112,7 +111,10 @@ impl Runner for BashRunner {
                 } else {
                     "1"
                 },
-            );
+            )
+            // the shell expression goes in last, so that nothing within it
+            // that looks like a placeholder is rewritten
+            .replace("{shell_expression}", &testcase.shell_expression);
         trace!("compiled expression {}", &expression);
 
         let mut testcase = testcase.clone();
